@@ -6,9 +6,9 @@
                                            its receiver, Scan, Value
 
   `Codec.digestParse` (shared with C17) is `ParseDigest`: UnmarshalText on a
-  zero Digest, the value discarded on error.  `Scan` calls UnmarshalText on
-  the receiver and discards the *error*: what the receiver holds afterwards is
-  modelled here.  Core Lean only.
+  zero Digest.  UnmarshalText decodes into a fresh value and assigns the
+  receiver only on success; `Scan` of a string returns its error.  What the
+  receiver holds afterwards is modelled here.  Core Lean only.
 -/
 import ClairModel.Model.Codec
 
@@ -26,18 +26,18 @@ structure DVal where
 deriving DecidableEq, Repr
 
 /-- `(*Digest).UnmarshalText`: the receiver afterwards and whether the error is nil.
-    The algorithm is assigned before the rest is looked at. -/
+    A rejected text leaves the receiver as it was. -/
 def unmarshal (d : DVal) (t : Bytes) : DVal × Bool :=
   match cut 58 t with
   | none => (d, false)
   | some (a, hx) =>
     match hexDecode hx with
-    | none => ({ d with algo := a }, false)
+    | none => (d, false)
     | some b =>
       match digestSize a with
-      | none => ({ d with algo := a }, false)
+      | none => (d, false)
       | some sz =>
-        if b.length = sz then (⟨a, b, a ++ 58 :: hexEncode b⟩, true) else ({ d with algo := a }, false)
+        if b.length = sz then (⟨a, b, a ++ 58 :: hexEncode b⟩, true) else (d, false)
 
 inductive ScanArg where
   | null
@@ -48,7 +48,7 @@ deriving Repr
 /-- `(*Digest).Scan`: the receiver afterwards and whether an error is returned. -/
 def scan (d : DVal) : ScanArg → DVal × Bool
   | .null => (d, false)
-  | .str t => ((unmarshal d t).1, false)
+  | .str t => ((unmarshal d t).1, !(unmarshal d t).2)
   | .other => (d, true)
 
 /-- `Digest.Value`. -/
